@@ -70,6 +70,9 @@ func (m *Model) Run() ModelRun {
 	act, errID := m.node(m.sc.Root, &r)
 	r.Action, r.ErrID = act, errID
 	r.Log = append([]string(nil), m.log...)
+	if m.sc.NilStore {
+		r.Log = nil
+	}
 	for _, rw := range m.sc.Rewire {
 		if rw.AfterRun == m.runIdx {
 			if m.extra == nil {
